@@ -5,6 +5,7 @@ import itertools
 from core import fseq, fseqs, fbool, fcells, pseq, pseqs, pcells, guarded
 import meshlib as ml
 import used
+import past
 
 PROP = "C06"
 RULE = ("exhaustive: every pair of mesh patterns (nu, mu) with |nu|<=1, |mu|<=2 over ALL shadings, and every index "
@@ -14,7 +15,11 @@ RULE = ("exhaustive: every pair of mesh patterns (nu, mu) with |nu|<=1, |mu|<=2 
         "witness keeps it a witness; meshinS6: all permutations up to length 6); random: |mu|<=4 (5) with shadings "
         "made of large blocks, nu planted as a weakening of an induced sub-pattern, plus near misses with one extra "
         "cell; non-trivial = |mu|>=2, 1<=|nu| (or chosen points) <|mu| or equal, and at least one shaded cell in mu; "
-        "distinct = distinct op lines")
+        "distinct = distinct op lines; large: the structural ops (submesh, isshaded*, ispointfree, meshin, permin, "
+        "mmcontains/mmavoids) on patterns of length 9-12, 21-40, 64-70 and a few around 200 with block shadings, holes at "
+        "the far end of a block, index subsets with few / nearly all points; objects with a past: on the treated lines "
+        "the patterns are fresh / used / derived from a used object through another API route (past.mkmesh2: unrank, "
+        "of_length, shade, symmetries, add_point + sub_mesh_pattern, copies), index lists are changed after the call")
 ASSUMPTIONS = [
     "model/implementation agreement outside the enumerated and sampled inputs is assumed",
     "theorems assume permutations as underlying patterns; malformed arguments are only correspondence-checked",
@@ -53,10 +58,16 @@ def _warm(m):
 
 
 _HEAVY = [False]
+_DERIVE = [False]     # the objects of the line come from past.mkmesh2 / mkperm2 (fresh / used / derived from a used object)
+_BIG = 9              # patterns at least this long belong to the 'large' stream
 
 
 def _mesh(p, c):
-    return used.obj(("M", p, c), lambda: MeshPatt(Perm(pseq(p)), pcells(c)), _warm if _HEAVY[0] else None)
+    def make():
+        if _DERIVE[0]:
+            return past.mkmesh2(pseq(p), pcells(c), 2)
+        return MeshPatt(Perm(pseq(p)), pcells(c))
+    return used.obj(("M", p, c), make, _warm if _HEAVY[0] else None)
 
 
 def _fsub(m):
@@ -72,24 +83,79 @@ def _occ(make):
     return fseqs(full) if full == pieced else used.unstable(fseqs(full), fseqs(pieced))
 
 
+def _longest(a):
+    return max([t.count(",") + 1 for t in " ".join(a).replace(";", " ").replace("/", " ").split(" ") if "." not in t] or [0])
+
+
 def impl(op, a):
     import c03
+    n = _longest(a)
+    big, huge = n >= _BIG, n >= 45
+    # a deterministic fifth of the lines (and the whole 'large' stream) gets the used-object treatment (warm-up,
+    # interleaved listings, second evaluation on the same objects); the others are evaluated once on fresh objects.
+    # A quarter of the treated lines (all large ones) run on objects with a past; 1 in 16 of them are preceded by the
+    # neighbouring calls (objects created, queried and dropped).
+    heavy = not huge and (big or used.sel(op, a, 5))     # (beyond length 45 the four-fold work is too slow)
+    derive = big or (heavy and used.digest("d~" + op, a) % 4 == 0)
+    _HEAVY[0] = c03._HEAVY[0] = heavy   # (the mixed items of mmcontains / mmavoids are built by c03)
+    _DERIVE[0] = c03._DERIVE[0] = derive
+    if heavy and not big:
+        used.prelude(op, a, _plain, 16)
     used.begin()
-    # a deterministic fifth of the lines gets the used-object treatment (warm-up, interleaved listings, second
-    # evaluation on the same objects); the others are evaluated once on fresh objects as before
-    _HEAVY[0] = c03._HEAVY[0] = used.sel(op, a, 5)   # (the mixed items of mmcontains / mmavoids are built by c03)
     r1 = _impl(op, a)
-    if not _HEAVY[0]:
+    if not heavy:
         return r1
     used.T.rewind()
     r2 = _impl(op, a)             # the same call once more, on the same (now used) objects
     return r1 if r1 == r2 else used.unstable(r1, r2)
 
 
+def _plain(op, a):
+    """a neighbouring call: evaluated once, on fresh objects, without the used-object treatment"""
+    import c03
+    saved = (_HEAVY[0], _DERIVE[0])
+    _HEAVY[0] = c03._HEAVY[0] = _DERIVE[0] = c03._DERIVE[0] = False
+    try:
+        return _impl(op, a)
+    finally:
+        _HEAVY[0] = c03._HEAVY[0] = saved[0]
+        _DERIVE[0] = c03._DERIVE[0] = saved[1]
+
+
+def _probe(m):
+    n = len(m)
+    return (tuple(m.pattern), sorted(m.shading), m.is_shaded((0, 0), (min(1, n), min(1, n))),
+            sorted(m.sub_mesh_pattern(range(0, n, 2)).shading), hash(m),
+            list(MeshPatt(Perm((0,)), [(0, 0)]).occurrences_in(m)), sorted(m.rotate(1).shading))
+
+
+def _fresh_like(r):
+    """_fsub(r) for the pattern object r returned by sub_mesh_pattern; on the treated lines it must in addition
+    answer a few further queries like a newly constructed pattern with the same permutation and shading"""
+    if not _HEAVY[0] or len(r) > 12:
+        return _fsub(r)
+    f = MeshPatt(Perm(tuple(r.pattern)), frozenset(r.shading))
+    a, b = used.quiet(lambda: _probe(r)), used.quiet(lambda: _probe(f))
+    return _fsub(r) if a == b else used.unstable(_fsub(r), "result object answers %r, a new one %r" % (a, b))
+
+
+def _submesh(m, idx):
+    """sub_mesh_pattern receives a list on the treated lines; afterwards the list is changed and the call is
+    repeated with a new list (the answer must not depend on the first list object)"""
+    if not _HEAVY[0]:
+        return _fsub(m.sub_mesh_pattern(idx))
+    lst = list(idx)
+    r1 = _fresh_like(m.sub_mesh_pattern(lst))
+    lst.append(0)
+    lst.reverse()
+    r2 = _fsub(m.sub_mesh_pattern(iter(list(idx))))
+    return r1 if r1 == r2 else used.unstable(r1, r2)
+
+
 def _impl(op, a):
     import c03
     if op in ("submesh", "submeshS"):
-        return guarded(lambda: _fsub(_mesh(a[0], a[1]).sub_mesh_pattern(pseq(a[2]))))
+        return guarded(lambda: _submesh(_mesh(a[0], a[1]), pseq(a[2])))
     if op == "isshaded1":
         return guarded(lambda: fbool(_mesh(a[0], a[1]).is_shaded((int(a[2]), int(a[3])))))
     if op == "isshaded":
@@ -100,7 +166,8 @@ def _impl(op, a):
         return guarded(lambda: (lambda q, m: _occ(lambda: q.occurrences_in(m)))(_mesh(a[0], a[1]), _mesh(a[2], a[3])))
     if op == "permin":
         return guarded(lambda: (lambda q, m: _occ(lambda: q.occurrences_in(m)))(
-            used.obj(("P", a[0]), lambda: Perm(pseq(a[0])), used.warm_perm if _HEAVY[0] else None), _mesh(a[1], a[2])))
+            used.obj(("P", a[0]), lambda: past.mkperm2(pseq(a[0]), 1) if _DERIVE[0] else Perm(pseq(a[0])),
+                     used.warm_perm if _HEAVY[0] else None), _mesh(a[1], a[2])))
     if op == "mmcontains":
         return guarded(lambda: fbool(_mesh(a[0], a[1]).contains(*c03._items(a[2]))))
     if op == "mmavoids":
@@ -114,7 +181,10 @@ def _valid_mesh(p, cells):
 
 def _occs_in_mesh_text(q, qsh, p, psh):
     """docstring / property text: classical occurrences of q in p whose induced sub-pattern (region reading)
-    shades at least the cells of qsh"""
+    shades at least the cells of qsh.  (Patterns longer than 8: the same reading evaluated only for the sub-cells
+    named in qsh, with the incremental listing of classical occurrences - meshlib.occs_in_mesh_big.)"""
+    if len(p) > 8:
+        return ml.occs_in_mesh_big(q, qsh, p, psh)
     return [c for c in ml.classical_occs(q, p) if set(qsh) <= set(ml.sub_shading_by_regions(p, psh, c))]
 
 
@@ -132,7 +202,7 @@ def _item_mesh(t):
 
 def _item_in_mesh(t, p, psh):
     if t.startswith("c:"):
-        return bool(ml.classical_occs(pseq(t[2:]), p))
+        return bool(ml.classical_occs_any(pseq(t[2:]), p))
     q, qsh = _item_mesh(t)
     return bool(_occs_in_mesh_text(q, qsh, p, psh))
 
@@ -145,7 +215,9 @@ def oracle(op, a):
         c = sorted(idx)
         patt = ml.standardize([p[i] for i in c])
         if op == "submesh":
-            return "%s/%s" % (fseq(patt), fcells(ml.sub_shading_by_regions(p, sh, c)))
+            # (long patterns: the same region reading computed by marking, O(n^2) - meshlib.sub_shading_big)
+            sub = ml.sub_shading_by_regions(p, sh, c) if len(p) <= 8 else ml.sub_shading_big(p, sh, c)
+            return "%s/%s" % (fseq(patt), fcells(sub))
         return "%s/%s" % (fseq(patt), fcells(ml.semantic_sub_shading(p, sh, c, len(p) + 1)))
     if op in ("isshaded1", "isshaded", "ispointfree"):
         p, sh = pseq(a[0]), set(pcells(a[1]))
@@ -172,7 +244,7 @@ def oracle(op, a):
         q, p, psh = pseq(a[0]), pseq(a[1]), pcells(a[2])
         if not ml.is_perm(q) or not _valid_mesh(p, psh):
             return None
-        return fseqs(ml.classical_occs(q, p))
+        return fseqs(ml.classical_occs_any(q, p))
     if op in ("mmcontains", "mmavoids"):
         p, psh = pseq(a[0]), pcells(a[1])
         toks = [] if a[2] == "-" else a[2].split(";")
@@ -223,6 +295,173 @@ def _planted_pair(rng, n):
         if extra:
             qsh.append(rng.choice(extra))
     return q, sorted(qsh), p, sh, c
+
+
+def _blocky_big(rng, n):
+    """shadings of a long pattern made of a few large rectangles (whole rows / columns among them) so that merged
+    regions have a chance of being fully shaded; about half of the rectangles get one hole - in the far corner, the
+    near corner or anywhere inside (a near miss that only shows beyond the first rows / columns of the rectangle).
+    Returns (shading, rectangles)."""
+    sh = set()
+    blocks = []
+    for _ in range(rng.randrange(1, 5)):
+        l, r = sorted((rng.randrange(n + 1), rng.randrange(n + 1)))
+        b, t = sorted((rng.randrange(n + 1), rng.randrange(n + 1)))
+        if rng.random() < 0.3:
+            l, r = 0, n
+        elif rng.random() < 0.3:
+            b, t = 0, n
+        blocks.append((l, b, r, t))
+        sh |= set((x, y) for x in range(l, r + 1) for y in range(b, t + 1))
+    for (l, b, r, t) in blocks:
+        if rng.random() < 0.5:
+            m = rng.randrange(4)
+            hole = [(r, t), (l, b), (r, rng.randint(b, t)), (rng.randint(l, r), rng.randint(b, t))][m]
+            sh.discard(hole)
+    return sorted(sh), blocks
+
+
+def _rect_near(rng, n, blocks):
+    """a rectangle query aligned with the rectangles the shading was built from: the rectangle itself, a part of it
+    that keeps one corner, or the rectangle extended by one row / column"""
+    l, b, r, t = rng.choice(blocks)
+    m = rng.randrange(4)
+    if m == 1:
+        r, t = rng.randint(l, r), rng.randint(b, t)
+    elif m == 2:
+        l, b = rng.randint(l, r), rng.randint(b, t)
+    elif m == 3:
+        l, b, r, t = max(0, l - rng.randrange(2)), max(0, b - rng.randrange(2)), min(n, r + rng.randrange(2)), min(n, t + rng.randrange(2))
+    return l, b, r, t
+
+
+def _big_subset(rng, n, few=False):
+    """index subsets of a long pattern: all points, all but one, a few near the ends, a block, random (`few`: only
+    the variants with few points, whose regions are wide)"""
+    m = rng.choice([2, 3, 4]) if few else rng.randrange(6)
+    if m == 0:
+        return list(range(n))
+    if m == 1:
+        i = rng.choice([0, n - 1, rng.randrange(n)])
+        return [j for j in range(n) if j != i]
+    if m == 2:
+        return sorted(set([0, n - 1] + rng.sample(range(n), rng.randrange(0, 3))))
+    if m == 3:
+        a = rng.randrange(n)
+        return list(range(a, min(n, a + rng.randrange(1, 6))))
+    if m == 4:
+        return sorted(rng.sample(range(n), rng.randrange(0, 4)))
+    return sorted(rng.sample(range(n), rng.randrange(n // 2, n + 1)))
+
+
+def large_lines(rng, quick):
+    """the 'large' stream: the structural operations at sizes the other streams never reach - patterns of length
+    9-12, 21-40, 64-70 and a few around 200 (there: few shaded cells).  The semantic ops (submeshS, meshinS) are
+    left out: their oracle ranges over all permutations one longer than the pattern.  Mesh-in-mesh listings are
+    generated where the three sides stay below about 0.2 s per line (measured): the small pattern has length <= 2
+    up to 40 and length 1 beyond, or is the induced sub-pattern on nearly all points."""
+    lines = []
+    mul = 1 if quick else 6
+    for scale, count in (("S", 180), ("M", 80), ("L", 30), ("X", 8)):
+        for _ in range(count * mul):
+            n = ml.big_len(rng, scale)
+            rnd = rng.random() < 0.6
+            p = ml.rand_perm(rng, n) if rnd else ml.sparse_target(rng, (1, 0), n, 2)
+            blocks = []
+            if scale == "X":
+                # (around 200 a rectangle is a band of a few rows or columns)
+                sh = set(ml.sparse_shading(rng, n, rng.randrange(1, 12)))
+                for _ in range(rng.randrange(0, 3)):
+                    k0 = rng.randrange(n + 1)
+                    blk = (0, k0, n, min(n, k0 + rng.randrange(2))) if rng.random() < 0.5 else (k0, 0, min(n, k0 + rng.randrange(2)), n)
+                    blocks.append(blk)
+                    sh |= set((x, y) for x in range(blk[0], blk[2] + 1) for y in range(blk[1], blk[3] + 1))
+                    if rng.random() < 0.5:
+                        sh.discard((rng.choice([blk[0], blk[2], rng.randint(blk[0], blk[2])]), rng.choice([blk[1], blk[3]])))
+                sh = sorted(sh)
+            elif rng.random() < 0.7:
+                sh, blocks = _blocky_big(rng, n)
+            else:
+                sh = ml.sparse_shading(rng, n, rng.randrange(1, 12))
+            fp, fc = fseq(p), fcells(sh)
+            r = rng.random()
+            if r < 0.3:
+                c = _big_subset(rng, n, few=blocks and rng.random() < 0.5)
+                if len(c) >= 2 and rng.random() < 0.3:
+                    rng.shuffle(c)
+                lines.append("submesh %s %s %s" % (fp, fc, fseq(c)))
+            elif r < 0.45:
+                l, r2 = sorted((rng.randrange(n + 1), rng.randrange(n + 1)))
+                b, t = sorted((rng.randrange(n + 1), rng.randrange(n + 1)))
+                if blocks and rng.random() < 0.7:
+                    l, b, r2, t = _rect_near(rng, n, blocks)
+                elif sh and rng.random() < 0.5:
+                    (l, b) = rng.choice(sh)
+                    r2, t = min(n, l + rng.randrange(0, 3)), min(n, b + rng.randrange(0, 3))
+                lines.append("%s %s %s %d %d %d %d" % (rng.choice(["isshaded", "isshaded", "ispointfree"]), fp, fc, l, b, r2, t))
+                if blocks:
+                    lines.append("isshaded %s %s %d %d %d %d" % ((fp, fc) + _rect_near(rng, n, blocks)))
+                if rng.random() < 0.3:
+                    lines.append("isshaded1 %s %s %d %d" % (fp, fc, l, t))
+            elif scale == "X":
+                lines.append("permin %s %s %s" % (fseq(ml.rand_perm(rng, rng.randrange(1, 3))), fp, fc))
+            elif r < 0.75:
+                # nu: a weakening of an induced sub-pattern (short, or on nearly all points), sometimes spoiled
+                # (the long variant only for random underlying permutations: a nearly monotone one has ~n^2 classical
+                # occurrences of its own sub-patterns, each costing the code an O(n^2) sub_mesh_pattern)
+                if not rnd or rng.random() < 0.6:
+                    k = rng.randrange(0, 3) if scale in "SM" else rng.randrange(0, 2)
+                    c = sorted(rng.sample(range(n), k))
+                else:
+                    c = sorted(rng.sample(range(n), n - rng.randrange(0, 3)))
+                k = len(c)
+                sub = ml.sub_shading_big(p, sh, c)
+                q = ml.standardize([p[i] for i in c])
+                qsh = [cell for cell in sub if rng.random() < 0.8]
+                if len(qsh) > 12:
+                    qsh = rng.sample(qsh, 12)
+                if rng.random() < 0.35:
+                    qsh.append((rng.randrange(k + 1), rng.randrange(k + 1)))
+                lines.append("meshin %s %s %s %s" % (fseq(q), fcells(sorted(set(qsh))), fp, fc))
+            elif r < 0.8:
+                lines.append("permin %s %s %s" % (fseq(ml.rand_perm(rng, rng.randrange(0, 3))), fp, fc))
+            else:
+                # mixed lists: short items and long ones (sub-patterns on nearly all points)
+                items = []
+                for _ in range(rng.randrange(1, 4)):
+                    if not rnd or rng.random() < 0.5:
+                        k2 = rng.randrange(0, 3)
+                        q2 = ml.rand_perm(rng, k2)
+                        kind = rng.choice("cmbvk")
+                        if kind == "c":
+                            items.append("c:" + fseq(q2))
+                        elif kind == "m":
+                            items.append("m:%s/%s" % (fseq(q2), fcells(ml.rand_shading(rng, k2, 4))))
+                        else:
+                            I = sorted(j for j in range(k2 + 1) if rng.random() < 0.3)
+                            V = sorted(j for j in range(k2 + 1) if rng.random() < 0.3)
+                            items.append({"b": "b:%s/%s/%s" % (fseq(q2), fseq(I), fseq(V)), "v": "v:%s/%s" % (fseq(q2), fseq(I)),
+                                          "k": "k:%s/%s" % (fseq(q2), fseq(V))}[kind])
+                    else:
+                        c = sorted(rng.sample(range(n), n - rng.randrange(0, 3)))
+                        q2 = ml.standardize([p[i] for i in c])
+                        sub = ml.sub_shading_big(p, sh, c)
+                        qsh = rng.sample(sub, min(len(sub), rng.randrange(0, 4)))
+                        if rng.random() < 0.3:
+                            qsh.append((rng.randrange(len(c) + 1), rng.randrange(len(c) + 1)))
+                        items.append("m:%s/%s" % (fseq(q2), fcells(sorted(set(qsh)))) if rng.random() < 0.7 else "c:" + fseq(q2))
+                lines.append("%s %s %s %s" % (rng.choice(["mmcontains", "mmavoids"]), fp, fc, ";".join(items)))
+    # near misses that only show far from the start: a band over the whole width with one hole at the far end
+    for p, sh, (l, b, r, t), hole in ml.band_cases(rng):
+        n = len(p)
+        fp, fc = fseq(p), fcells(sh)
+        lines.append("isshaded %s %s %d %d %d %d" % (fp, fc, l, b, r, t))
+        if hole is not None:
+            lines.append("isshaded %s %s %d %d %d %d" % (fp, fc, l, b, max(l, min(r, hole[0] - (r == n))), max(b, min(t, hole[1] - (t == n)))))
+        if n <= 70:
+            lines.append("submesh %s %s %s" % (fp, fc, fseq(sorted(rng.sample(range(n), rng.randrange(0, 3))))))
+            lines.append("meshin %s %s %s %s" % ("_", "0.0", fp, fc))
+    return lines
 
 
 def run(ctx):
@@ -346,6 +585,8 @@ def run(ctx):
             lines.append("%s %s %s %d %d %d %d" % (rng.choice(["isshaded", "ispointfree"]), fseq(p), fcells(sh), l, b, r2, t))
     lines.sort(key=lambda l: (l.split(" ")[0] in ("meshinS", "submeshS"), l.split(" ")[-2:]))
     ctx.compare("random-planted", lines)
+    # ---- large: sizes the other streams never reach
+    ctx.compare("large", large_lines(rng, quick))
     # ---- malformed: asserts and index errors of the glue code
     ctx.compare("malformed", [
         "submesh 0,1 _ 1,1", "submesh 0,1 _ 2", "submesh 0,1 1.1 0,5", "submesh 0,1,2 1.1 0,0,1", "submesh _ _ 0",
